@@ -4,7 +4,7 @@ import struct
 from bumble import core, l2cap
 from pyvc.contracts import (Any, Bool, Bytes, Callback, DequeOf, Event, Inst, Int, IntRange, ListOf, OneOf, Opaque, Opt,
                             contract, forall, iff, implies, lemma, model, at, ite)
-from pyvc.ext_c07 import flat
+from pyvc.ext_c07 import all_nonempty, flat
 from spec.coc import (is_sdu_prefix, le16, ledger_ok, payload_part, rs_complete, rs_overflow, rs_pending, sdu_frame)
 
 ENVIRONMENT = [
@@ -175,4 +175,126 @@ contract(
     ensures_names=ON_PDU_NAMES,
     modifies=['self.in_sdu', 'self.in_sdu_length', 'self.peer_credits', 'ghost.sunk', 'ghost.nsdu', 'ghost.last', 'ghost.cr_frames', 'ghost.cr_total', 'ghost.cr_cid', 'ghost.cr_last'],
     inline=['L2CAP_Control_Frame.*', 'LeCreditBasedChannel.send_control_frame', 'L2CAP_LE_Flow_Control_Credit.*'],
+)
+
+
+# ---------------------------------------------------------------------------
+# sender: process_output / write / on_credits / flush_output
+# ---------------------------------------------------------------------------
+# ghost.c     mirror of self.credits, decremented by the send stub (which asserts c >= 1)
+# ghost.k     number of K-frames sent
+# ghost.rbuf  spec receiver: octets of the SDU in progress;  ghost.rout: payload octets of completed SDUs
+# ghost.rn    number of completed SDUs
+TX_GHOST = dict(c=Int, mps=Int, mtu=Int, dcid=Int, k=Int, rbuf=Bytes, rout=Bytes, rn=Int)
+
+
+def tx_rest(self):
+    return self.out_sdu if self.out_sdu is not None else b''
+
+
+def tx_cur(self, ghost):
+    """the SDU being transmitted, whole: what the receiver already has ++ what is still to send"""
+    return ghost.rbuf + tx_rest(self)
+
+
+def tx_stream(self, ghost):
+    """every payload octet accepted by write(), in order: delivered ++ in progress ++ waiting"""
+    return ghost.rout + payload_part(tx_cur(self, ghost)) + flat(self.out_queue)
+
+
+def tx_idle(self):
+    return self.out_sdu is None and len(self.out_queue) == 0
+
+
+def tx_params(self, ghost):
+    return [
+        1 <= self.peer_mtu,
+        self.peer_mtu <= 65535,
+        1 <= self.peer_mps,
+        ghost.mps == self.peer_mps,
+        ghost.mtu == self.peer_mtu,
+        ghost.dcid == self.destination_cid,
+    ]
+
+
+def wf_tx(self, ghost):
+    q = self.out_queue
+    cur = tx_cur(self, ghost)
+    return [
+        ghost.c == self.credits,
+        self.credits >= 0,
+        # a started SDU is a whole frame le16(n) ++ payload, 1 <= n <= peer MTU, with at least one octet left to send
+        implies(self.out_sdu is None, len(ghost.rbuf) == 0),
+        implies(self.out_sdu is not None, len(tx_rest(self)) >= 1 and len(cur) >= 3 and len(cur) == 2 + le16(cur) and le16(cur) <= self.peer_mtu),
+        # nothing empty waits in the queue (write sizes >= 1)
+        all_nonempty(q),
+        # the drained flag is never set while something waits
+        implies(self.drained.is_set(), tx_idle(self)),
+    ]
+
+
+TX_MOD = ['self.credits', 'self.out_sdu', 'self.out_queue', 'self.drained', 'ghost.c', 'ghost.k', 'ghost.rbuf', 'ghost.rout', 'ghost.rn']
+
+
+def tx_post(self, old, ghost):
+    return [
+        wf_tx(self, ghost),
+        # nothing lost, duplicated or reordered: delivered ++ in progress ++ waiting is unchanged
+        tx_stream(self, ghost) == tx_stream(old.self, old.ghost),
+        # one credit per frame
+        old.self.credits - self.credits == ghost.k - old.ghost.k,
+        ghost.k >= old.ghost.k,
+        # no stall: on return either no credit is left or nothing is left to send
+        self.credits == 0 or tx_idle(self),
+        # completion is signalled as soon as everything has been sent with a credit to spare
+        implies(tx_idle(self) and self.credits > 0, self.drained.is_set()),
+    ]
+
+
+TX_POST_NAMES = ['mirror', 'credits>=0', 'no-sdu-in-progress', 'sdu-in-progress-wf', 'queue-nonempty-items', 'drained-sound',
+                 'stream-preserved', 'one-credit-per-frame', 'frames-monotone', 'no-stall', 'drained-complete']
+
+
+def po_outer_inv(self, old, ghost):
+    return [
+        tx_params(self, ghost),
+        wf_tx(self, ghost),
+        tx_stream(self, ghost) == tx_stream(old.self, old.ghost),
+        old.self.credits - self.credits == ghost.k - old.ghost.k,
+        ghost.k >= old.ghost.k,
+    ]
+
+
+def po_inner_inv(self, payload, old, ghost):
+    """SDU assembly (only the queue and the local payload change: loop_modifies)"""
+    q = self.out_queue
+    return [
+        all_nonempty(q),
+        len(payload) <= self.peer_mtu,
+        len(payload) >= 1 or len(q) >= 1,
+        ghost.rout + payload + flat(q) == tx_stream(old.self, old.ghost),
+    ]
+
+
+PROCESS_OUTPUT = dict(
+    params=dict(self=CHAN),
+    ghost=TX_GHOST,
+    requires=lambda self, ghost: [tx_params(self, ghost), wf_tx(self, ghost)],
+    ensures=tx_post,
+    ensures_names=TX_POST_NAMES,
+    modifies=TX_MOD,
+)
+
+contract(
+    'bumble.l2cap:LeCreditBasedChannel.process_output',
+    prop='C07',
+    invariants={0: po_outer_inv, 1: po_inner_inv},
+    decreases={
+        0: lambda self: 2 * self.credits + (1 if self.out_sdu is None else 0),
+        1: lambda self, payload: self.peer_mtu - len(payload),
+    },
+    loop_locals={0: dict(payload=Bytes, chunk=Bytes, packet=Bytes), 1: dict(chunk=Bytes)},
+    loop_modifies={1: ['self.out_queue']},
+    inline=['LeCreditBasedChannel.send_pdu'],
+    **PROCESS_OUTPUT,
 )
